@@ -125,3 +125,56 @@ func tagPart(r *core.Run) {
 	}
 	r.Set("tag_alphabet", len(tags))
 }
+
+// limitPart: the packing builder and its parser agree at the size limits: whatever layout Secrets() packs
+// without an error, ParseSecrets gives back unchanged (layouts whose parts are each at most MaxPartSize, also
+// when their sum exceeds it), and what the builder refuses stays refused.
+func limitPart(r *core.Run) {
+	max := int(cmt.MaxPartSize)
+	layouts := [][]int{{max}, {max, 1}, {1, max}, {max/2 + 1, max/2 + 1}, {max, max, max}, {max + 1}, {1, max + 1}}
+	one := big.NewInt(1)
+	for _, lay := range layouts {
+		r.Count("limit_layouts", 1)
+		name := fmt.Sprint(lay)
+		bld := cmt.NewBuilder()
+		for _, n := range lay {
+			part := make([]*big.Int, n)
+			for i := range part {
+				part[i] = one
+			}
+			bld.AddPart(part)
+		}
+		secrets, err := bld.Secrets()
+		within := true
+		for _, n := range lay {
+			if n > max {
+				within = false
+			}
+		}
+		if err != nil {
+			if within {
+				r.Violate("builder/limit/refused-by-builder", "Secrets() refuses a layout whose parts are all within MaxPartSize: "+err.Error(), name)
+			}
+			continue
+		}
+		if !within {
+			r.Violate("builder/limit/oversized-part-packed", "Secrets() packs a part larger than MaxPartSize", name)
+			continue
+		}
+		parts, perr := cmt.ParseSecrets(secrets)
+		if perr != nil {
+			r.Violate("builder/limit/packed-layout-refused-by-parser", "ParseSecrets refuses what Secrets() has just packed: "+perr.Error(), name)
+			continue
+		}
+		ok := len(parts) == len(lay)
+		for i := range parts {
+			if !ok || len(parts[i]) != lay[i] {
+				ok = false
+				break
+			}
+		}
+		if !ok {
+			r.Violate("builder/limit/round-trip-differs", "the parsed layout differs from the packed one", name)
+		}
+	}
+}
